@@ -29,7 +29,7 @@ def gen_rescale(r, tier):
 class C01(Prop):
     id = "C01"
     lean_modules = ["Fan2go.Props.C01"]
-    fact_modules = ["Fan2go.Props.Facts", "Fan2go.Props.Trans", "Fan2go.Props.Trans2FindClosest", "Fan2go.Props.Trans3A", "Fan2go.Props.Trans3B", "Fan2go.Props.Trans3Fan"]
+    fact_modules = ["Fan2go.Props.Facts", "Fan2go.Props.Trans", "Fan2go.Props.Trans2FindClosest", "Fan2go.Props.Trans3A", "Fan2go.Props.Trans3B", "Fan2go.Props.Trans3Fan", "Fan2go.Props.Trans3FileFan"]
     rule = ("ctrl: random controller worlds (hwmon/file fans and ~10 % cmd fans driven through real scripts and processes, limits biased to {0,1,2,30,100,254,255}, neverStop on/off, "
             "PWM-map shapes identity/sparse/quantiser/plateau/non-monotone/constant/single, loops direct / direct+limit / "
             "PID default / PID random gains) x event lists (cycles with curve values in -300..600, elapsed time incl. 0, RPM "
@@ -38,6 +38,7 @@ class C01(Prop):
     assumptions = ["configurations inside the quantifier: 0 <= min <= max <= 255, non-empty PWM map with outputs in 0..255",
                    "the control algorithm's output is treated as an arbitrary integer (the proofs rest on the controller's clamp)"]
     streams = [Stream("ctrl", lambda r, tier: ctrl.gen_ctrl(r, tier, malformed=True), parallel=8),
+               Stream("ctrl-long", ctrl.gen_long_quiet, parallel=8),
                Stream("rescale", gen_rescale, parallel=8)]
 
     def oracle(self, name, ops, go):
